@@ -12,7 +12,7 @@ CHECKS = {
     "C07": {
         "technique": "deterministic simulation: seeded histories over a simulator-owned sync.Pool model + relational oracle (probe after history vs. fresh process)",
         "text": "Seeded exploration of call histories (Parse/Validate/Collect*/aborted calls/pool clears) in which the simulator decides which recycled object every pool Get returns; "
-                "each probe call is compared field by field with the same call in a fresh process; histories also go through the front ends (with reader faults) and contain documented edits of the global configuration (message map entries, global formatter, number coercers), after which every message must be worded by the configuration in force at that moment. Sampling of a very large space: evidence, not proof; the right level because the property quantifies over histories and pool contents that only a controlled pool can reach.",
+                "each probe call is compared field by field with the same call in a fresh process; histories also go through the front ends (with reader faults) and contain documented edits of the global configuration (message map entries, global formatter, number coercers), after which every message must be worded by the configuration in force at that moment; some callbacks run complete executions of other schemas before they return (nested executions must return what they return alone, and the outer call must equal the same call without them). Sampling of a very large space: evidence, not proof; the right level because the property quantifies over histories and pool contents that only a controlled pool can reach.",
         "note": TRUST + "the relational oracle embeds no model of zog.",
         "design": "DESIGN.md §3 C07",
     },
@@ -109,7 +109,7 @@ CHECKS.update({
 CHECKS.update({
     "C08": {
         "technique": "deterministic simulation: baton scheduler over instrumented yield points with seeded preemption points, pool hand-off between tasks; per-operation solo-equivalence oracle; Go race detector made deterministic by hiding the baton hand-offs (RaceDisable) and re-creating sync.Pool's edges",
-        "text": "2-4 tasks share schemas and the pool model; the simulator decides every preemption (at function entries, loop heads, pool calls, callbacks) and which task's freed objects another task receives. Every operation must equal its task's solo result under the same visit orders, uncollected results must not change, schema fingerprints must not change. Half as many worlds run in the -race build with a lean simulator the detector cannot see, so that the detector reports exactly the conflicting accesses the library does not order - in a replayable execution.",
+        "text": "2-4 tasks (3 % of the worlds: a crowd of 36-46 tasks, each stopped half-way through its call before the next one starts) share schemas and the pool model; the simulator decides every preemption (at function entries, loop heads, pool calls, callbacks) and which task's freed objects another task receives. Every operation must equal its task's solo result under the same visit orders, uncollected results must not change, schema fingerprints must not change. Half as many worlds run in the -race build with a lean simulator the detector cannot see, so that the detector reports exactly the conflicting accesses the library does not order - in a replayable execution.",
         "note": REL + " Interleavings are explored at yield-point granularity; the race layer covers unsynchronised accesses between yield points in the executions it observes. sync.Pools inside fmt/encoding are real and may add incidental ordering.",
         "design": "DESIGN.md §3 C08, §2.7",
     },
